@@ -7,14 +7,14 @@ TEMPLATES = ['r2', 'r3', 'se2', 'se3', 'se2c', 'se3c', 'r2c', 'mixed', 'se2fix',
 def model_check(run, thorough):
     """Exhaustive bounded model of the system specification: all behaviours over a small universe satisfy the frame conditions."""
     from .. import tlc
-    props = 'INVARIANT BoundById\nINVARIANT ReportShape\nPROPERTY FixedFrozen\nPROPERTY FlagsRule\nPROPERTY StructureFrozen\nPROPERTY QueriesPure\nPROPERTY RejectedIsFinal\nPROPERTY FirstFixedAfterOpt\n'
+    props = 'INVARIANT BoundById\nINVARIANT ReportShape\nPROPERTY FixedFrozen\nPROPERTY FlagsRule\nPROPERTY StructureFrozen\nPROPERTY QueriesPure\nPROPERTY RejectedIsFinal\nPROPERTY FirstFixedAfterOpt\nPROPERTY PosesRule\n'
     consts = 'CONSTANTS\n MaxV = 2\n Tokens = {0, 1%s}\n MaxIterMC = %d\n' % (', 2' if thorough else '', 3 if thorough else 2)
     res = tlc.run('MC_GraphSLAM', 'SPECIFICATION MCSpec\n' + consts + props, coverage=True, timeout=3000)
     if res.violation:
         raise tlc.TLCError('GraphSLAM violates %s on the bounded model:\n%s' % (res.violation, res.out[-1500:]))
     run.add_tlc(res, 'MC_GraphSLAM (exhaustive, MaxV=2)')
-    for act in ('Query', 'SetFixed'):
-        if res.coverage.get('GraphSLAM!' + act, 0) == 0:
+    for act in ('GraphSLAM!Query', 'GraphSLAM!SetFixed', 'GraphSLAM!SetPose', 'GraphSLAM!SetMeas'):
+        if res.coverage.get(act, 0) == 0:
             raise tlc.TLCError('vacuity guard: action %s never taken' % act)
     res.cleanup()
     r2 = tlc.run('MC_GraphSLAM', 'SPECIFICATION MutantSpec\nCONSTANTS\n MaxV = 2\n Tokens = {0, 1}\n MaxIterMC = 1\nPROPERTY FixedFrozen\n', timeout=600)
@@ -82,7 +82,7 @@ def check(run):
     model_check(run, thorough)
     num = 1500 if thorough else 160
     depth = 51 if thorough else 31
-    behaviours = scenario.generate(run, TEMPLATES, run.seed, num, depth, workers=8)
+    behaviours = scenario.generate(run, TEMPLATES, run.seed, num, depth, workers=8, edits=True)
     # hand-written behaviours: every query on every edge / vertex of graphs whose quaternions are stored with negative scalar parts and of a
     # file-expressible graph, whatever the seed generated
     def qy(name, t=1):
